@@ -148,7 +148,8 @@ theorem view_agree {v : View} {d d' : Disk} (h : Agree v d d') (hr : replay d'.r
       · simp [hok] at hv
         subst hv
         simp [filesOk_agree h, hok]
-      · simp [hok] at hv
+      · simp only [hok, Bool.false_eq_true, if_false] at hv
+        split at hv <;> cases hv
 
 /-- Steps that only touch files the view does not reference. -/
 def Fresh (v : View) : PStep → Prop
@@ -282,6 +283,235 @@ theorem crash_before_last (v : View) (d : Disk) (pre : List PStep) (last : PStep
       exact ⟨Agree.trans h0.1 h1.1, h1.2.1.trans h0.2.1, h1.2.2.trans h0.2.2⟩
   · subst hp
     cases (pre ++ [last])[k]? <;> exact h0
+
+
+/-! ### the view loaded from a rewritten manifest -/
+
+def Rec.isTable : Rec → Bool
+  | .createTable _ _ => true | .dropTable _ => true | _ => false
+
+/-- Same table part. -/
+def TEq (w v : View) : Prop := w.tables = v.tables ∧ w.nTables = v.nTables ∧ w.tableLog = v.tableLog
+
+theorem applyRecs_append (v : View) (a b : List Rec) :
+    v.applyRecs (a ++ b) = match v.applyRecs a with | .ok v1 => v1.applyRecs b | .error e => .error e := by
+  induction a generalizing v with
+  | nil => rfl
+  | cons r rs ih =>
+    simp only [List.cons_append, View.applyRecs]
+    cases v.applyRec r with
+    | error e => rfl
+    | ok v1 => exact ih v1
+
+/-- A table record acts on the table part only, and the same way on views with the same table part. -/
+theorem applyRec_table (w v : View) (r : Rec) (hr : r.isTable = true) (h : TEq w v) (v' : View)
+    (hv : v.applyRec r = .ok v') :
+    ∃ w', w.applyRec r = .ok w' ∧ TEq w' v' ∧ w'.rowsets = w.rowsets ∧ w'.dvs = w.dvs ∧
+      w'.nextR = w.nextR ∧ w'.nextD = w.nextD := by
+  obtain ⟨h1, h2, h3⟩ := h
+  cases r with
+  | createTable name ncols =>
+    simp only [View.applyRec] at hv ⊢
+    rw [h1]
+    split at hv
+    · cases hv
+    · rename_i hdup
+      cases hv
+      simp only [hdup]
+      exact ⟨_, rfl, ⟨by simp [h1, h2], by simp [h2], by simp [h3]⟩, rfl, rfl, rfl, rfl⟩
+  | dropTable t =>
+    simp only [View.applyRec] at hv ⊢
+    rw [h1]
+    split at hv
+    · rename_i hex
+      cases hv
+      simp only [hex]
+      exact ⟨_, rfl, ⟨by simp [h1], h2, by simp [h3]⟩, rfl, rfl, rfl, rfl⟩
+    · cases hv
+  | begin => cases hr
+  | fin => cases hr
+  | addRowSet _ _ => cases hr
+  | deleteRowSet _ _ => cases hr
+  | addDV _ _ _ => cases hr
+  | deleteDV _ _ _ => cases hr
+
+theorem applyRecs_table (rs : List Rec) (hall : ∀ r ∈ rs, r.isTable = true) (w v : View) (h : TEq w v)
+    (v' : View) (hv : v.applyRecs rs = .ok v') :
+    ∃ w', w.applyRecs rs = .ok w' ∧ TEq w' v' ∧ w'.rowsets = w.rowsets ∧ w'.dvs = w.dvs ∧
+      w'.nextR = w.nextR ∧ w'.nextD = w.nextD := by
+  induction rs generalizing w v with
+  | nil => cases hv; exact ⟨w, rfl, h, rfl, rfl, rfl, rfl⟩
+  | cons r rs ih =>
+    simp only [View.applyRecs] at hv ⊢
+    cases hr : v.applyRec r with
+    | error e => simp [hr] at hv
+    | ok v1 =>
+      simp only [hr] at hv
+      obtain ⟨w1, hw1, ht, e1, e2, e3, e4⟩ := applyRec_table w v r (hall r (List.mem_cons_self ..)) h v1 hr
+      obtain ⟨w', hw', ht', f1, f2, f3, f4⟩ := ih (fun x hx => hall x (List.mem_cons_of_mem _ hx)) w1 v1 ht hv
+      refine ⟨w', by simp [hw1, hw'], ht', f1.trans e1, f2.trans e2, f3.trans e3, f4.trans e4⟩
+
+/-- What `bootstrap` guarantees about the view it loads. -/
+structure Canon (v : View) : Prop where
+  nodupR : v.rowsets.Nodup
+  nodupD : v.dvs.Nodup
+  logTable : ∀ r ∈ v.tableLog, r.isTable = true
+  logReplays : ∃ w, View.empty.applyRecs v.tableLog = .ok w ∧ TEq w v
+
+theorem canon_empty : Canon View.empty :=
+  ⟨List.nodup_nil, List.nodup_nil, (by intro r hr; cases hr), ⟨View.empty, rfl, rfl, rfl, rfl⟩⟩
+
+theorem nodup_filter_append {α : Type} [BEq α] [LawfulBEq α] (l : List α) (k : α) (h : l.Nodup) :
+    ((l.filter (· != k)) ++ [k]).Nodup := by
+  rw [List.nodup_append]
+  refine ⟨h.filter _, by simp, ?_⟩
+  intro a ha b hb
+  simp at hb
+  subst hb
+  have := (List.mem_filter.mp ha).2
+  simpa using this
+
+theorem canon_applyRec (v v' : View) (r : Rec) (hc : Canon v) (h : v.applyRec r = .ok v') : Canon v' := by
+  obtain ⟨n1, n2, lt, w, hw, hteq⟩ := hc
+  cases r with
+  | begin => cases h; exact ⟨n1, n2, lt, w, hw, hteq⟩
+  | fin => cases h; exact ⟨n1, n2, lt, w, hw, hteq⟩
+  | addRowSet t r => cases h; exact ⟨nodup_filter_append v.rowsets (t, r) n1, n2, lt, w, hw, hteq⟩
+  | deleteRowSet t r => cases h; exact ⟨n1.filter _, n2, lt, w, hw, hteq⟩
+  | addDV t r d => cases h; exact ⟨n1, nodup_filter_append v.dvs (t, r, d) n2, lt, w, hw, hteq⟩
+  | deleteDV t r d => cases h; exact ⟨n1, n2.filter _, lt, w, hw, hteq⟩
+  | createTable name ncols =>
+    obtain ⟨w', hw', ht', _⟩ := applyRec_table w v (.createTable name ncols) rfl hteq v' h
+    have hlog : v'.tableLog = v.tableLog ++ [.createTable name ncols] := by
+      simp only [View.applyRec] at h; split at h <;> cases h; rfl
+    have hr : v'.rowsets = v.rowsets ∧ v'.dvs = v.dvs := by
+      simp only [View.applyRec] at h; split at h <;> cases h; exact ⟨rfl, rfl⟩
+    refine ⟨hr.1 ▸ n1, hr.2 ▸ n2, ?_, w', ?_, ht'⟩
+    · rw [hlog]; intro x hx
+      rcases List.mem_append.mp hx with hx | hx
+      · exact lt x hx
+      · simp at hx; subst hx; rfl
+    · rw [hlog, applyRecs_append, hw]; simp [View.applyRecs, hw']
+  | dropTable t =>
+    obtain ⟨w', hw', ht', _⟩ := applyRec_table w v (.dropTable t) rfl hteq v' h
+    have hlog : v'.tableLog = v.tableLog ++ [.dropTable t] := by
+      simp only [View.applyRec] at h; split at h <;> cases h; rfl
+    have hr : v'.rowsets = v.rowsets ∧ v'.dvs = v.dvs := by
+      simp only [View.applyRec] at h; split at h <;> cases h; exact ⟨rfl, rfl⟩
+    refine ⟨hr.1 ▸ n1, hr.2 ▸ n2, ?_, w', ?_, ht'⟩
+    · rw [hlog]; intro x hx
+      rcases List.mem_append.mp hx with hx | hx
+      · exact lt x hx
+      · simp at hx; subst hx; rfl
+    · rw [hlog, applyRecs_append, hw]; simp [View.applyRecs, hw']
+
+theorem canon_applyRecs (rs : List Rec) (v v' : View) (hc : Canon v) (h : v.applyRecs rs = .ok v') : Canon v' := by
+  induction rs generalizing v with
+  | nil => cases h; exact hc
+  | cons r rs ih =>
+    simp only [View.applyRecs] at h
+    cases hr : v.applyRec r with
+    | error e => simp [hr] at h
+    | ok v1 => simp only [hr] at h; exact ih v1 (canon_applyRec v v1 r hc hr) h
+
+theorem filter_ne_self {α : Type} [BEq α] [LawfulBEq α] (l : List α) (k : α) (h : k ∉ l) : l.filter (· != k) = l := by
+  rw [List.filter_eq_self]
+  intro a ha
+  simp; intro he; exact h (he ▸ ha)
+
+theorem applyRecs_adds (ks : List (Nat × Nat)) (w : View) (hnd : ks.Nodup) (hdis : ∀ k ∈ ks, k ∉ w.rowsets) :
+    ∃ n, w.applyRecs (ks.map fun x => Rec.addRowSet x.1 x.2) = .ok { w with rowsets := w.rowsets ++ ks, nextR := n } := by
+  induction ks generalizing w with
+  | nil => exact ⟨w.nextR, by simp [View.applyRecs]⟩
+  | cons k ks ih =>
+    have hk : k ∉ w.rowsets := hdis k (List.mem_cons_self ..)
+    have hnd' := (List.nodup_cons.mp hnd)
+    simp only [List.map_cons, View.applyRecs, View.applyRec]
+    have hf : w.rowsets.filter (· != (k.1, k.2)) = w.rowsets := filter_ne_self _ _ hk
+    rw [hf]
+    obtain ⟨n, hn⟩ := ih { w with rowsets := w.rowsets ++ [(k.1, k.2)], nextR := max w.nextR (k.2 + 1) } hnd'.2 (by
+      intro k' hk' hmem
+      rcases List.mem_append.mp hmem with h1 | h1
+      · exact hdis k' (List.mem_cons_of_mem _ hk') h1
+      · simp at h1; rw [h1] at hk'; exact hnd'.1 hk')
+    exact ⟨n, by rw [hn]; simp⟩
+
+theorem applyRecs_addDvs (ks : List (Nat × Nat × Nat)) (w : View) (hnd : ks.Nodup) (hdis : ∀ k ∈ ks, k ∉ w.dvs) :
+    ∃ n, w.applyRecs (ks.map fun x => Rec.addDV x.1 x.2.1 x.2.2) = .ok { w with dvs := w.dvs ++ ks, nextD := n } := by
+  induction ks generalizing w with
+  | nil => exact ⟨w.nextD, by simp [View.applyRecs]⟩
+  | cons k ks ih =>
+    have hk : k ∉ w.dvs := hdis k (List.mem_cons_self ..)
+    have hnd' := (List.nodup_cons.mp hnd)
+    simp only [List.map_cons, View.applyRecs, View.applyRec]
+    have hf : w.dvs.filter (· != (k.1, k.2.1, k.2.2)) = w.dvs := filter_ne_self _ _ hk
+    rw [hf]
+    obtain ⟨n, hn⟩ := ih { w with dvs := w.dvs ++ [(k.1, k.2.1, k.2.2)], nextD := max w.nextD (k.2.2 + 1) } hnd'.2 (by
+      intro k' hk' hmem
+      rcases List.mem_append.mp hmem with h1 | h1
+      · exact hdis k' (List.mem_cons_of_mem _ hk') h1
+      · simp at h1; rw [h1] at hk'; exact hnd'.1 hk')
+    exact ⟨n, by rw [hn]; simp⟩
+
+/-- The rewritten manifest loads to the same view, up to the re-derived id counters. -/
+theorem load_rewrite (v : View) (hc : Canon v) :
+    ∃ n m, View.empty.applyRecs (replay (rewriteRecs v)) = .ok { v with nextR := n, nextD := m } := by
+  obtain ⟨n1, n2, lt, w0, hw0, hteq⟩ := hc
+  let body := v.rowsets.map (fun x => Rec.addRowSet x.1 x.2) ++ v.dvs.map (fun x => Rec.addDV x.1 x.2.1 x.2.2) ++ v.tableLog
+  have hnb : ∀ e ∈ body, e.isBracket = false := by
+    intro e he
+    simp only [body, List.mem_append, List.mem_map] at he
+    rcases he with (⟨x, _, rfl⟩ | ⟨x, _, rfl⟩) | he
+    · rfl
+    · rfl
+    · have := lt e he; cases e <;> simp_all [Rec.isTable, Rec.isBracket]
+  have hrw : rewriteRecs v = [] ++ ([Rec.begin] ++ body ++ [Rec.fin]) := by
+    simp [rewriteRecs, body, List.append_assoc]
+  have hrep : replay (rewriteRecs v) = body := by
+    rw [hrw, (replay_closed_txn [] body rfl hnb).1]; rfl
+  rw [hrep]
+  obtain ⟨n, hn⟩ := applyRecs_adds v.rowsets View.empty n1 (by intro k _ hk; cases hk)
+  obtain ⟨m, hm⟩ := applyRecs_addDvs v.dvs { View.empty with rowsets := View.empty.rowsets ++ v.rowsets, nextR := n } n2
+    (by intro k _ hk; cases hk)
+  obtain ⟨w', hw', ht', f1, f2, f3, f4⟩ := applyRecs_table v.tableLog lt
+    { ({ View.empty with rowsets := View.empty.rowsets ++ v.rowsets, nextR := n } : View) with
+        dvs := View.empty.dvs ++ v.dvs, nextD := m } View.empty ⟨rfl, rfl, rfl⟩ w0 hw0
+  refine ⟨n, m, ?_⟩
+  simp only [body]
+  rw [applyRecs_append, applyRecs_append, hn]
+  simp only [hm, hw']
+  congr 1
+  obtain ⟨t1, t2, t3⟩ := ht'
+  obtain ⟨u1, u2, u3⟩ := hteq
+  cases w'
+  cases v
+  simp only [View.empty, List.nil_append] at *
+  simp_all
+
+theorem view_ok_parts {d : Disk} {v : View} (hv : view d = .ok v) :
+    d.torn = false ∧ View.empty.applyRecs (replay d.recs) = .ok v ∧ filesOk d v = true := by
+  unfold view at hv
+  cases htn : d.torn with
+  | true => simp [htn] at hv
+  | false =>
+    simp only [htn] at hv
+    cases hl : View.empty.applyRecs (replay d.recs) with
+    | error e => simp [hl] at hv
+    | ok v0 =>
+      simp only [hl] at hv
+      by_cases hok : filesOk d v0 = true
+      · simp [hok] at hv; subst hv; exact ⟨rfl, rfl, hok⟩
+      · simp only [hok, Bool.false_eq_true, if_false] at hv
+        split at hv <;> cases hv
+
+theorem canon_of_view {d : Disk} {v : View} (hv : view d = .ok v) : Canon v :=
+  canon_applyRecs _ _ _ canon_empty (view_ok_parts hv).2.1
+
+theorem agree_apply_rename (v : View) (d : Disk) (p : Progress) : Agree v d (d.apply .renameTmp p) := by
+  simp only [Disk.apply]
+  cases d.tmp with
+  | none => exact Agree.refl v d
+  | some x => exact ⟨fun _ _ => rfl, fun _ _ => rfl⟩
 
 end Crash
 end RlModel
